@@ -31,6 +31,7 @@ func TestMain(m *testing.M) {
 	vh.Rule("exhaustive: all 779 (precision 1..38, scale 0..precision) pairs x both signs x boundary magnitudes 0, 1, 10^k, 10^k-1, 10^k+1, 2^k and 2^k+-1 for k in 7,8,15,16,31,32,53,63,64,127 (thorough adds d*10^k, repdigits, 10^k-10^j) through String+round trip; the same pairs x magnitudes x text variants (canonical, no point, leading zeros, fraction zero-padded to the scale, '+', leading point, trailing point - numerals for math/big.Rat, the reference the property names - and the tolerated shape surrounding spaces) through SetString; per pair the fraction-beyond-scale, too-many-digits boundary texts; every string of length <=5 over \"019.-+ e\" (thorough <=6 over 9 symbols) at 6 pairs; every (precision, scale) in -5..45 plus int extremes through NewDecimal/NewDecimalString. rapid: random (precision, scale), random digit strings of length 0..precision (styles: uniform digits, all nines, power of ten, zero tail/head), random text variants, unrepresentable numerals (non-zero digits beyond the scale, more significant digits than the precision), malformed text (several points, inner signs, empty, letters, exponent, hex, separators, non-ASCII digits, control bytes). Non-trivial: the expected unscaled integer has |u| >= 10, or scale > 0 and the fraction is non-zero; for input that must be rejected: a well-formed numeral with >= 2 significant digits or a non-zero fraction digit, or malformed text with >= 2 non-space characters. Distinct by (precision, scale, unscaled) resp. (precision, scale, text)")
 	vh.Assume("math/big Int/Rat arithmetic and Rat.SetString; regexp; Decimal.SetBytes+Negate load an unscaled integer and Decimal.Int/IsNegative read it back (cross-checked against each other in every case); the oracle's numeral grammar: must-accept = -?D+(.D+)? with <= scale fraction digits and |value*10^scale| < 10^precision; '+', surrounding white space, '.5', '5.' and zero digits beyond the scale are only tolerated (if accepted the value must be exact, an error is fine too); precision 0 is not judged (property speaks of 1..38, NewDecimal documents < 0 as too low)")
 	vh.Rule("also: batches of 2..8 format/parse cases run in goroutines at the same time (separate race-detector run)")
+	vh.Rule("also: construction with precision / scale 256+k, 65536+k, 2^32+k (k a valid value) and negatives thereof")
 	vh.Main(m, "C16")
 }
 
